@@ -13,6 +13,7 @@ require (
 
 require (
 	github.com/mattn/go-isatty v0.0.20 // indirect
+	go.etcd.io/bbolt v1.3.10 // indirect
 	golang.org/x/sync v0.8.0 // indirect
 	golang.org/x/sys v0.24.0 // indirect
 )
